@@ -387,23 +387,27 @@ func (SlowLogger) Error(f string, a ...interface{}) { slowLog(f, a) }
 type FaultyLogger struct {
 	Left    *int
 	OnPanic func()
+	Level   string // "" = calls of every level count; else only those of this level ("debug", "info", "warn", "error")
 }
 
-func (l FaultyLogger) log(f string, a []interface{}) {
-	if l.Left != nil && *l.Left > 0 {
+func (l FaultyLogger) log(level, f string, a []interface{}) {
+	if l.Left != nil && *l.Left > 0 && (l.Level == "" || l.Level == level) {
 		*l.Left--
 		if *l.Left == 0 {
 			*l.Left = -1
 			if l.OnPanic != nil {
 				l.OnPanic()
 			}
-			panic("simulated: the log sink is broken")
+			panic(LogSinkBroken)
 		}
 	}
 	slowLog(f, a)
 }
 
-func (l FaultyLogger) Debug(f string, a ...interface{}) { l.log(f, a) }
-func (l FaultyLogger) Info(f string, a ...interface{})  { l.log(f, a) }
-func (l FaultyLogger) Warn(f string, a ...interface{})  { l.log(f, a) }
-func (l FaultyLogger) Error(f string, a ...interface{}) { l.log(f, a) }
+// LogSinkBroken is the value a FaultyLogger panics with.
+const LogSinkBroken = "simulated: the log sink is broken"
+
+func (l FaultyLogger) Debug(f string, a ...interface{}) { l.log("debug", f, a) }
+func (l FaultyLogger) Info(f string, a ...interface{})  { l.log("info", f, a) }
+func (l FaultyLogger) Warn(f string, a ...interface{})  { l.log("warn", f, a) }
+func (l FaultyLogger) Error(f string, a ...interface{}) { l.log("error", f, a) }
